@@ -220,7 +220,7 @@ def main(tier, replay=None):
     if replay:
         return do_replay(replay, ucg, base, pools)
     cfgs = ["c14_q1"] if tier == "quick" else ["c14_q1", "c14_t1"]
-    budget = 450 if tier == "quick" else 6000
+    budget = 450 if tier == "quick" else 3000
     opendevs = B.open_deviations() & DEVS
     states = trans = 0
     cmds = []
@@ -242,11 +242,7 @@ def main(tier, replay=None):
             cmds.append(r2.cmd)
             for c in r2.replays:
                 devcases.setdefault(B.case_key(c), []).append(c)
-    keys = sorted(cases)
-    rng = random.Random(sd)
-    rng.shuffle(keys)
-    keys.sort(key=lambda k: 0 if nontrivial(cases[k]) else 1)
-    chosen = keys[:budget]
+    chosen = B.choose(cases, lambda k: nontrivial(cases[k]), budget, random.Random(sd))
     jobs = [(i, cases[k], devcases.get(k), ucg, base, sd, pools) for i, k in enumerate(chosen)]
     cnt = {"one artifact written": 0, "inconvertible value": 0, "second out": 0, "no out": 0, "pre-existing artifact": 0,
            "pre-existing artifact and failed conversion": 0}
@@ -298,6 +294,8 @@ def main(tier, replay=None):
             states += info.get("states", 0)
     code = rep.finish()
     shutil.rmtree(base, ignore_errors=True)
+    if code == 0:
+        shutil.rmtree(gd, ignore_errors=True)      # kept after a violation: the trace files are evidence
     C.write_evidence(PID, tier, "model_checking", {
         "states": states, "transitions": trans,
         "traces_validated_against_impl": builds + tv_runs,
